@@ -8,8 +8,10 @@
 (*   kind = "debounce": every input item exactly once; first the initial burst sorted by key, then    *)
 (*                      the later items in arrival order.  "Initial burst": the statement does not    *)
 (*                      say where it ends, so any split point is accepted as long as it contains at   *)
-(*                      least the items that arrived strictly before the earliest moment at which     *)
-(*                      the documented window (debounce D after the last item, at most M) can close.  *)
+(*                      least the items that arrived strictly before the moment W at which the        *)
+(*                      documented window (debounce D after the last item, at most M) closes, and at  *)
+(*                      most the items that arrived up to W: an item arriving after the window has    *)
+(*                      closed is a later item and keeps its arrival position.                        *)
 EXTENDS Naturals, Sequences, FiniteSets, TLC, Json, IOUtils
 
 T == JsonDeserialize(IOEnv.TRACE_FILE)
@@ -53,9 +55,15 @@ Win(i, c) == IF i > N THEN Min(c, T.M)
              ELSE IF Tr.t[i] < Min(c, T.M) THEN Win(i + 1, Tr.t[i] + T.D) ELSE Win(i + 1, c)
 W == Win(1, T.D)
 NEarly == Cardinality({i \in 1..N : Tr.t[i] < W})
+\* latest close: an item arriving at the very instant the window would close may still be taken into it and extend it
+RECURSIVE WinLe(_, _)
+WinLe(i, c) == IF i > N THEN Min(c, T.M)
+               ELSE IF Tr.t[i] <= Min(c, T.M) THEN WinLe(i + 1, Tr.t[i] + T.D) ELSE WinLe(i + 1, c)
+WLate == WinLe(1, T.D)
+NLate == Cardinality({i \in 1..N : Tr.t[i] <= WLate})
 \* arrival order as the source bodies saw it
 Arr == [i \in 1..Len(Tr.arrived) |-> Tr.arrived[i][1]]
-SplitOK(o, arr, kmin) == \E k \in kmin..Len(arr) :
+SplitOK(o, arr, kmin) == \E k \in kmin..Min(NLate, Len(arr)) :
      o = ByKey(SubSeq(arr, 1, k)) \o SubSeq(arr, k + 1, Len(arr))
 DOnce == /\ \A i, j \in 1..Len(Tr.out) : i # j => Tr.out[i] # Tr.out[j]
          /\ ToSet(Tr.out) \subseteq ToSet(Arr)
